@@ -40,6 +40,16 @@ def run(ctx):
                 "sync Reader::seek re-establishes the block data length after repositioning", start_after=is_seek, depth=4)
     R.must_pass(ctx, "C02.R1", "<%s<R> as noodles_bgzf::io::seek::Seek>::seek_to_virtual_position" % MT, r"io::block::data::Data::resize$",
                 "MultithreadedReader::seek_to_virtual_position re-establishes the block data length", start_after=is_seek, depth=4)
+    # the discarded block is re-stamped by the seek itself: when no frame follows the target (a seek to the end of the file) read_block
+    # loads nothing, and tell() would otherwise name the compressed position of the block loaded BEFORE the seek
+    for key9, what9 in ((RD + "seek", "sync Reader::seek"),
+                        ("<%s<R> as noodles_bgzf::io::seek::Seek>::seek_to_virtual_position" % MT, "MultithreadedReader::seek_to_virtual_position")):
+        R.must_pass(ctx, "C02.R1", key9, r"io::block::Block::set_position$",
+                    what9 + " stamps the discarded block with the target's compressed position before it tries to load a block",
+                    start_after=is_seek, depth=2)
+        R.must_pass(ctx, "C02.R1", key9, r"io::block::Block::set_size$",
+                    what9 + " resets the discarded block's size (tell() after a seek to the end must not add the old frame's size)",
+                    start_after=is_seek, depth=2)
     # async fn seek: the block field is reassigned on every success path after blocks.seek()
     fa = ctx.body("C02.R1", AR + "seek")
     if fa is not None:
